@@ -208,9 +208,29 @@ def _sfs_bnl_core(data, sorted_idx, offsets, n_total_groups, result_mask):
             s = 0.0
             for kk in range(dv):
                 s += local[i, kk]
+            if s != s:  # inf - inf: order with the +inf sums
+                s = np.inf
             sums_buf[i] = s
 
         order = np.argsort(sums_buf[:n], kind="mergesort")
+
+        # A dominating row must be visited before the rows it dominates. Its sum is
+        # never larger, but rounding and infinities can make the sums equal, so order
+        # each run of equal sums lexicographically.
+        r0 = numba.int64(0)
+        while r0 < n:
+            r1 = r0 + 1
+            while r1 < n and sums_buf[order[r1]] == sums_buf[order[r0]]:
+                r1 += 1
+            if r1 - r0 > 1:
+                run = order[r0:r1].copy()
+                key = np.empty(r1 - r0, dtype=data.dtype)
+                for kk in range(dv - 1, -1, -1):
+                    for j in range(r1 - r0):
+                        key[j] = local[run[j], kk]
+                    run = run[np.argsort(key, kind="mergesort")]
+                order[r0:r1] = run
+            r0 = r1
 
         n_blk = (n >> 4) + 1
         for b in range(n_blk):
